@@ -88,9 +88,14 @@ impl<'n> TryFromNode<'n> for Field {
                 });
             }
 
-            let namespace: Option<Rc<Namespace>> = namespace_ref
-                .and_then(|ns| doc.find_namespace_by_abbreviation(ns))
-                .cloned();
+            // an unprefixed reference denotes the default namespace in scope
+            let namespace: Option<Rc<Namespace>> = match namespace_ref {
+                Some(ns) => doc.find_namespace_by_abbreviation(ns).cloned(),
+                None => node
+                    .lookup_namespace_uri(None)
+                    .and_then(|uri| doc.find_namespace(uri))
+                    .cloned(),
+            };
 
             let ref_node = doc.find_node_by_xml_name(&node, xml_name, namespace.as_deref());
             let ref_node = ref_node
